@@ -6,6 +6,7 @@
    [lower] is strings.ToLower (any function). Time is nanoseconds (now_ns); sessions compare
    against whole seconds (now_ns / ns). *)
 From V Require Import Base AuthAll AuthAll_proofs Gen_AuthBackRoutes.
+From V Require Import CorrBase Corr_IntAuth Corr_IntAuth_proofs.
 
 (* The route table of the model IS the table in the Go source of newMux (all eight routes: path,
    methods, middleware chain IN ORDER, handler; nothing else), and route paths are distinct. *)
@@ -263,7 +264,7 @@ Theorem INT_signout :
    let r := inner q p_sign_out in
    let ack := acookie_of (cookie_of d o (lookup slug (q_sess q))) in
    let uri := redirect_value r in
-   (has_clear (r_sess_ops resp) ->
+   (AuthAll_proofs.has_clear (r_sess_ops resp) ->
     B.rq_method r = B.m_post /\
     sign_out_gates_pass d o now_ns q /\
     r_loc resp = LVerbatim uri /\
@@ -487,3 +488,24 @@ Theorem INT_nonvacuous :
   routed Ex.d Ex.q_sign_in [103] F.Google p_sign_in.
 Proof. exact nonvacuous. Qed.
 Print Assumptions INT_nonvacuous.
+
+(* The monitor of the correspondence driver (Corr_IntAuth.holds: the composite clauses above stated
+   on OBSERVATIONS and on the generator's own bookkeeping, independently of the model's code path)
+   accepts the model's own response for every deployment, request, oracle behaviour, provider
+   answers and time, whenever the bookkeeping is consistent with the request ([sane]) and the
+   configured e-mail domains carry no '@' (C11's guard): a monitor alarm is never an artefact of
+   the monitor being stricter than the theorems. Guards inside [sane]: ASCII redirect URIs for the
+   clauses that re-read the written Location, a non-empty server nonce, a valid ASCII scheme. *)
+Theorem INT_monitor_accepts_model : forall (lower : str -> str) d q o an now_ns g,
+  rule_guard lower d = true -> sane d q o an g ->
+  holds lower d now_ns an g (obs_of d (g_state g) (serve lower d q o an now_ns)) = true.
+Proof. exact monitor_accepts_model. Qed.
+Print Assumptions INT_monitor_accepts_model.
+
+Theorem INT_monitor_nonvacuous :
+  sane Ex.d Ex.q_sign_in Ex.o Ex.an ex_ghost /\
+  rule_guard lower_ascii Ex.d = true /\
+  holds lower_ascii Ex.d (1100 * ns)%Z Ex.an ex_ghost
+        (obs_of Ex.d (g_state ex_ghost) (serve lower_ascii Ex.d Ex.q_sign_in Ex.o Ex.an (1100 * ns)%Z)) = true.
+Proof. exact sane_nonvacuous. Qed.
+Print Assumptions INT_monitor_nonvacuous.
